@@ -26,7 +26,7 @@ REAL = ["rpyc.utils.registry.UDPRegistryServer / TCPRegistryServer (_work, cmd_q
 STUB = ["UDP/TCP sockets, hosts, datagram loss/duplication/reordering (in-memory kernel)", "time (virtual clock)"]
 ASSUMPTIONS = ["the model is fed with the commands the server actually processed; a pair that lapsed and re-registered before any query may or may "
                "not produce removed+added notifications (the lapse was never observable)"]
-PROBES = ["c18:hostile-input", "c18:entry-pruned", "c18:unregister", "c18:tcp-silent-client", "fault:udp-loss", "fault:udp-dup"]
+PROBES = ["c18:hostile-input", "c18:entry-pruned", "c18:unregister", "c18:tcp-silent-client", "c18:tcp-connect-and-leave", "fault:udp-loss", "fault:udp-dup"]
 CHUNK = 20
 PORT = 18811
 
@@ -314,8 +314,13 @@ def run_one(choices, params):
                         so = net.SockObj()
                         so.settimeout(2)
                         so.connect(("10.1.0.100", PORT))
-                        mode = w.pick(("send", "send", "silent", "half", "reset"))
-                        if mode == "send":
+                        mode = w.pick(("send", "send", "silent", "half", "reset", "close"))
+                        if mode == "close":
+                            # connects and leaves without a single byte (a client that crashed between connect and send)
+                            sim.count("c18:tcp-connect-and-leave")
+                            info["hostile"].add("tcp-close-silent")
+                            so.close()
+                        elif mode == "send":
                             so.sendall(payload or b"\x00")
                             so.close()
                         elif mode == "silent":
